@@ -161,3 +161,18 @@ CHECKS["C05"] = {
     "outside": ["operands outside [-32000,32000] (the decoder clamps deltas to that range by documented design)", "sqrt, div, random (outside the exact dyadic fragment)", "programs with more than one path operator after the prefix", "agreement with x/image"],
     "assumptions": ["reference interpreter written from Adobe TN5177 (harness/cff/t2ref.go) is the oracle", "arithmetic operands in [-150,150] so that results stay within the coordinate range"],
 }
+
+CHECKS["C04"] = {
+    "harnesses": [
+        H("cff", ["c04.go", "t2ref.go"], "VerifH_C04_int", ["done"], quick={"timeout": 200}),
+        H("cff", ["c04.go", "t2ref.go"], "VerifH_C04_num", ["done"], quick={"timeout": 200}),
+        H("cff", ["c04.go", "t2ref.go"], "VerifH_C04_glyph", ["compiled"], quick={"params": {"maxsegments": 1, "frac": 0, "coordlimit": 120, "shapes": 8}, "timeout": 280, "shards": 8}, thorough={"params": {"maxsegments": 2, "frac": 4, "coordlimit": 8000, "shapes": 12, "symwidths": 1}, "timeout": 3000, "shards": 12}),
+        H("cff", ["c04.go", "t2ref.go"], "VerifH_C04_stems", ["compiled"], quick={"params": {"stemchoices": 5, "maskkinds": 2}, "timeout": 280, "shards": 5}, thorough={"params": {"stemchoices": 7, "maskkinds": 4, "symv": 1}, "timeout": 2400, "shards": 7}),
+        H("cff", ["c04.go", "t2ref.go"], "VerifH_C04_long", ["compiled"], quick={"timeout": 280}),
+        H("cff", ["c04.go", "t2ref.go"], "VerifH_C04_bigdelta", [], quick={"timeout": 200}),
+    ],
+    "bounds": {"quick": "encodeInt: every int16; encodeNumber: every x on a 2^-18 grid in (-32767,32767); glyphs: moveto + 1 further segment (line or move; curves in the thorough tier) with integer coordinates symbolic in [-120,120], symbolic width and default/nominal widths; stems {0,1,2,23,24} per direction with symbolic first edge, no mask or hintmask first [thorough: cntrmask, mask after the first move]; runs of 23..29 lines / 7..9 curves with two solver-chosen steps",
+               "thorough": "2 further segments incl. curves on a 1/16 grid in [-8000,8000]; stems up to 48 per direction"},
+    "outside": ["more than 4 free segments", "coordinates beyond +-8000 in the general harness (deltas must fit one Type 2 number; the big-delta case is a separate harness / known finding)", "non-dyadic reals"],
+    "assumptions": ["reference interpreter from TN5177 (harness/cff/t2ref.go) judges well-formedness (operand counts, 48-entry stack, endchar)"],
+}
